@@ -70,18 +70,20 @@ std::string runOp(const Case& o, const ReuseableDataContainer64* shared) {
       break;
     }
     case T_DFuncs: {
-      int ec = 0;
+      // every PathsD free function with a per-operation precision (threads use different ones at the same time)
+      int ec = 0, prec = (int)o.I("prec", 2);
       PathsD ad = ScalePaths<double, int64_t>(a, 0.01, ec), bd = ScalePaths<double, int64_t>(b, 0.01, ec);
-      digestPathsD(InflatePaths(ad, o.D("delta") * 0.01, (JoinType)(o.I("jt") & 3), (EndType)(o.I("et") % 5), o.D("ml", 2.0), 2, o.D("at", 0.0)), d);
+      digestPathsD(InflatePaths(ad, o.D("delta") * 0.01, (JoinType)(o.I("jt") & 3), (EndType)(o.I("et") % 5), o.D("ml", 2.0), prec, o.D("at", 0.0)), d);
       RectD r(o.I("l") * 0.01, o.I("t") * 0.01, o.I("r") * 0.01, o.I("b") * 0.01);
-      digestPathsD(RectClip(r, ad, 2), d); digestPathsD(RectClipLines(r, ad, 2), d);
-      if (!ad.empty() && !bd.empty()) { digestPathsD(MinkowskiSum(ad[0], bd[0], o.I("pc") != 0, 2), d); digestPathsD(MinkowskiDiff(ad[0], bd[0], o.I("pc") != 0, 2), d); }
+      digestPathsD(RectClip(r, ad, prec), d); digestPathsD(RectClipLines(r, ad, prec), d);
+      if (!ad.empty() && !bd.empty()) { digestPathsD(MinkowskiSum(ad[0], bd[0], o.I("pc") != 0, prec), d); digestPathsD(MinkowskiDiff(ad[0], bd[0], o.I("pc") != 0, prec), d); }
       digestPathsD(SimplifyPaths(ad, 0.05, true), d);
-      digestPathsD(BooleanOp(ct, fr, ad, bd, 3), d);
+      digestPathsD(BooleanOp(ct, fr, ad, bd, prec), d);
+      for (auto& p : ad) digestPathsD(PathsD{TrimCollinear(p, prec, false)}, d);
       break;
     }
     case T_BoolDTree: {
-      ClipperD c((int)(o.I("jt") & 3));
+      ClipperD c((int)o.I("prec", 2));
       int ec = 0;
       c.AddSubject(ScalePaths<double, int64_t>(a, 0.01, ec)); c.AddClip(ScalePaths<double, int64_t>(b, 0.01, ec));
       PolyTreeD t; PathsD so; c.Execute(ct, fr, t, so);
@@ -173,7 +175,7 @@ Case gen() {
       for (int j = 0; j < na; ++j) a.push_back(GEN::randomPath(3, 10, M));
       b.push_back(GEN::randomPath(3, 8, M));
       o.p["a"] = a; o.p["b"] = b;
-      o.i["ct"] = G::range(0, 3); o.i["fr"] = G::range(0, 3); o.i["pc"] = G::range(0, 1); o.i["jt"] = G::range(0, 3); o.i["et"] = G::range(0, 4);
+      o.i["ct"] = G::range(0, 3); o.i["fr"] = G::range(0, 3); o.i["pc"] = G::range(0, 1); o.i["jt"] = G::range(0, 3); o.i["et"] = G::range(0, 4); o.i["prec"] = G::range(0, 5);
       o.d["delta"] = G::real(-0.2, 0.3) * (double)M; o.d["ml"] = G::real(1, 4); o.d["at"] = G::coin() ? 0.0 : G::real(0.1, 2);
       int64_t x0 = G::sym(M), x1 = G::sym(M), y0 = G::sym(M), y1 = G::sym(M);
       o.i["l"] = std::min(x0, x1); o.i["r"] = std::max(x0, x1) + 1; o.i["t"] = std::min(y0, y1); o.i["b"] = std::max(y0, y1) + 1;
